@@ -302,7 +302,7 @@ def run(ctx):
     params_all = PARAMS_OK + PARAMS_SCALAR
     rpcids = RPCIDS_VERBATIM + RPCIDS_GENERATE + RPCIDS_UNJUDGED
     space = itertools.product(methods, params_all, rpcids, VERSIONS, FLAGS, FLAGS, range(len(cfgs)))
-    stride = 1 if not ctx.quick else 8
+    stride = 1 if not ctx.quick else 3
     n = 0
     for idx, (method, params, rpcid, version, mresp, notify, ci) in enumerate(space):
         if not ctx.mine(idx):
@@ -349,7 +349,7 @@ def run(ctx):
                 ctx.case(("Fault." + how, code, gen.trepr(data), gen.trepr(rid), cname))
 
     # random deep params / results
-    nr = ctx.pick(3000, 300000)
+    nr = ctx.pick(15000, 300000)
     for i in range(nr):
         cname, cfg = rng.choice(cfgs)
         version = rng.choice(VERSIONS)
